@@ -1,4 +1,3 @@
-import Std.Data.HashMap
 import MxV.Core.Particle
 /-! # Mfull — line-by-line executable port of `XMLChildContainer` and of the child-handling half
 of `XMLElement` (musicxml/xmlelement/xmlchildcontainer.py, xmlelement.py:249-372), including
@@ -10,8 +9,8 @@ arena (children's `parent_xsd_element` may keep pointing into them — that is h
 Exceptions do not roll back state: the monad is `ExceptT Err (StateM Arena)`.
 
 This model is used for the correspondence check only (all 94 content models, all operations);
-no theorem is stated over it, so non-structural recursion is written with `partial`. -/
-open Std
+every recursive function carries a fuel argument (structural recursion, total, kernel-evaluable): the
+negative witnesses of `Tables/D_witnesses.lean` are evaluated on it by the kernel. -/
 
 namespace Mfull
 
@@ -54,12 +53,15 @@ structure Child where
 
 structure Arena where
   nodes : Array Node := #[]
-  kids : HashMap Nat Child := {}
+  kids : List (Nat × Child) := []    -- association list (kernel-evaluable; a handful of children per element)
   root : Nat := 0
   unordered : List Nat := []
   deriving Inhabited
 
 abbrev M := ExceptT Err (StateM Arena)
+
+/-- recursion budget of the (structurally recursive) traversals; never reached on real content models -/
+def FUEL : Nat := 100000
 
 def getN (i : Nat) : M Node := do return (← get).nodes[i]!
 def modN (i : Nat) (f : Node → Node) : M Unit :=
@@ -68,9 +70,17 @@ def alloc (n : Node) : M Nat := do
   let a ← get
   set { a with nodes := a.nodes.push n }
   return a.nodes.size
-def getK (c : Nat) : M Child := do return ((← get).kids[c]?).getD { name := 0 }
+def kget (l : List (Nat × Child)) (c : Nat) : Child :=
+  match l with
+  | [] => { name := 0 }
+  | (k, v) :: r => if k == c then v else kget r c
+def kset (l : List (Nat × Child)) (c : Nat) (v : Child) : List (Nat × Child) :=
+  match l with
+  | [] => [(c, v)]
+  | (k, w) :: r => if k == c then (k, v) :: r else (k, w) :: kset r c v
+def getK (c : Nat) : M Child := do return kget (← get).kids c
 def modK (c : Nat) (f : Child → Child) : M Unit :=
-  modify fun a => { a with kids := a.kids.insert c (f ((a.kids[c]?).getD { name := 0 })) }
+  modify fun a => { a with kids := kset a.kids c (f (kget a.kids c)) }
 
 def truthy : Option Bool → Bool
   | some true => true
@@ -79,42 +89,48 @@ def truthy : Option Bool → Bool
 def isSeq (k : Kind) : Bool := k == .seq || k == .dupseq
 
 /-! ### verysimpletree.Tree -/
-partial def resetIter (i : Nat) : M Unit := do
-  let n ← getN i
-  match n.parent with
-  | some p => resetIter p
-  | none => pure ()
-  modN i fun n => { n with cTrav := none, cLeaves := none, cPath := none }
+def resetIter (fuel : Nat) (i : Nat) : M Unit :=
+  match fuel with
+  | 0 => throw (.internal "fuel")
+  | fuel + 1 => do
+    let n ← getN i
+    match n.parent with
+    | some p => resetIter fuel p
+    | none => pure ()
+    modN i fun n => { n with cTrav := none, cLeaves := none, cPath := none }
 
 def treeAddChild (p c : Nat) : M Unit := do
   modN c fun n => { n with parent := some p }
   modN p fun n => { n with children := n.children ++ [c] }
-  resetIter p
+  resetIter FUEL p
 
 def treeRemove (p c : Nat) : M Unit := do
   let pn ← getN p
   if !pn.children.contains c then throw (.internal "ChildNotFoundError")
   modN c fun n => { n with parent := none }
   modN p fun n => { n with children := n.children.erase c }
-  resetIter p
+  resetIter FUEL p
 
 def treeReplace (p old new : Nat) : M Unit := do
   let pn ← getN p
   if !pn.children.contains old then throw (.internal "ValueError")
   modN p fun n => { n with children := n.children.map (fun x => if x == old then new else x) }
   modN old fun n => { n with parent := none }
-  resetIter p
+  resetIter FUEL p
   modN new fun n => { n with parent := some p }
 
-partial def rawTraverse (a : Arena) (i : Nat) : List Nat :=
-  i :: (a.nodes[i]!.children.flatMap (rawTraverse a))
+def rawTraverse (fuel : Nat) (a : Arena) (i : Nat) : List Nat :=
+  match fuel with
+  | 0 => [i]
+  | fuel + 1 =>
+    i :: (a.nodes[i]!.children.flatMap (rawTraverse fuel a))
 
 def traverse (i : Nat) : M (List Nat) := do
   let n ← getN i
   match n.cTrav with
   | some l => return l
   | none =>
-    let l := rawTraverse (← get) i
+    let l := rawTraverse FUEL (← get) i
     modN i fun n => { n with cTrav := some l }
     return l
 
@@ -129,49 +145,55 @@ def iterLeaves (i : Nat) : M (List Nat) := do
     modN i fun n => { n with cLeaves := some l }
     return l
 
-partial def pathToRoot (i : Nat) : M (List Nat) := do
-  let n ← getN i
-  match n.cPath with
-  | some l => return l
-  | none =>
-    let rest ← match n.parent with
-      | some p => pathToRoot p
-      | none => pure []
-    let l := i :: rest
-    modN i fun n => { n with cPath := some l }
-    return l
+def pathToRoot (fuel : Nat) (i : Nat) : M (List Nat) :=
+  match fuel with
+  | 0 => throw (.internal "fuel")
+  | fuel + 1 => do
+    let n ← getN i
+    match n.cPath with
+    | some l => return l
+    | none =>
+      let rest ← match n.parent with
+        | some p => pathToRoot fuel p
+        | none => pure []
+      let l := i :: rest
+      modN i fun n => { n with cPath := some l }
+      return l
 
 def choicesInPath (i : Nat) : M (List Nat) := do
-  let p ← pathToRoot i
+  let p ← pathToRoot FUEL i
   let a ← get
   return (p.drop 1).filter (fun j => a.nodes[j]!.kind == .choice)
 
 /-! ### building container trees from particles -/
-partial def build (p : Particle) : M Nat := do
-  match p with
-  | .elem n mi ma => alloc { kind := .elem, name := n, min := mi, max := ma, tmpl := p }
-  | .seq mi ma ps =>
-    let i ← alloc { kind := .seq, min := mi, max := ma, tmpl := p }
-    for q in ps do
-      let c ← build q
+def build (fuel : Nat) (p : Particle) : M Nat :=
+  match fuel with
+  | 0 => throw (.internal "fuel")
+  | fuel + 1 => do
+    match p with
+    | .elem n mi ma => alloc { kind := .elem, name := n, min := mi, max := ma, tmpl := p }
+    | .seq mi ma ps =>
+      let i ← alloc { kind := .seq, min := mi, max := ma, tmpl := p }
+      for q in ps do
+        let c ← build fuel q
+        treeAddChild i c
+      return i
+    | .choice mi ma ps =>
+      let i ← alloc { kind := .choice, min := mi, max := ma, tmpl := p }
+      for q in ps do
+        let c ← build fuel q
+        treeAddChild i c
+      return i
+    | .group g mi ma q =>
+      let i ← alloc { kind := .group, name := g, min := mi, max := ma, tmpl := p }
+      let c ← build fuel q
       treeAddChild i c
-    return i
-  | .choice mi ma ps =>
-    let i ← alloc { kind := .choice, min := mi, max := ma, tmpl := p }
-    for q in ps do
-      let c ← build q
-      treeAddChild i c
-    return i
-  | .group g mi ma q =>
-    let i ← alloc { kind := .group, name := g, min := mi, max := ma, tmpl := p }
-    let c ← build q
-    treeAddChild i c
-    return i
+      return i
 
 /-- `__copy__` of the process-wide template: same shape, fresh flags and caches.
     (`add_child` during the copy resets caches, which are all `None` anyway.) -/
 def newInstance (p : Particle) : Arena :=
-  let (r, a) := (build p).run.run {}
+  let (r, a) := (build FUEL p).run.run {}
   match r with
   | .ok i => { a with root := i, nodes := a.nodes.modify i fun n => { n with pxml := true } }
   | .error _ => a
@@ -188,65 +210,77 @@ def maxIsReached (i : Nat) : M Bool := do
     else return false
 
 mutual
-partial def checkContainer (i : Nat) : M Unit := do
-  let n ← getN i
-  match n.kind with
-  | .seq | .dupseq => checkSeq i
-  | .group => checkGroup i
-  | .choice => checkChoice i
-  | .elem => throw (.internal "NotImplementedError")
+def checkContainer (fuel : Nat) (i : Nat) : M Unit :=
+  match fuel with
+  | 0 => throw (.internal "fuel")
+  | fuel + 1 => do
+    let n ← getN i
+    match n.kind with
+    | .seq | .dupseq => checkSeq fuel i
+    | .group => checkGroup fuel i
+    | .choice => checkChoice fuel i
+    | .elem => throw (.internal "NotImplementedError")
 
-partial def checkChoice (i : Nat) : M Unit := do
-  let n ← getN i
-  let mut chosen := false
-  for c in n.children do
-    let cn ← getN c
-    if cn.kind == .group then
-      match cn.children with
-      | [] => throw (.internal "IndexError")
-      | g0 :: _ =>
-        if truthy (← getN g0).force then checkContainer g0
-    else if truthy cn.force then checkContainer c
-    else
-      if cn.min == 0 then pure ()
-      else if cn.min == 1 then
-        if cn.kind == .elem then
-          if cn.elems.length == 0 then pure ()
-          else chosen := true
-        else checkContainer c
-      else throw (.internal "NotImplementedError")
-  if chosen then modN i fun n => { n with reqf := some true }
-
-partial def checkGroup (i : Nat) : M Unit := do
-  let n ← getN i
-  match n.children with
-  | [] => throw (.internal "IndexError")
-  | g0 :: _ =>
-    if n.min == 0 && !(truthy (← getN g0).force) then return ()
-    checkSeq g0
-
-partial def checkSeq (i : Nat) : M Unit := do
-  let n ← getN i
-  if truthy n.force then
+def checkChoice (fuel : Nat) (i : Nat) : M Unit :=
+  match fuel with
+  | 0 => throw (.internal "fuel")
+  | fuel + 1 => do
+    let n ← getN i
+    let mut chosen := false
     for c in n.children do
       let cn ← getN c
-      if cn.kind == .elem then
-        if cn.elems.length < cn.min then modN c fun x => { x with reqf := some false }
-      else checkContainer c
-  if n.min > 0 then
-    for c in n.children do
-      let cn ← getN c
-      if cn.force == some true then checkContainer c
-      else if cn.min == 0 then pure ()
-      else if cn.min == 1 then
-        -- validate_child
+      if cn.kind == .group then
+        match cn.children with
+        | [] => throw (.internal "IndexError")
+        | g0 :: _ =>
+          if truthy (← getN g0).force then checkContainer fuel g0
+      else if truthy cn.force then checkContainer fuel c
+      else
+        if cn.min == 0 then pure ()
+        else if cn.min == 1 then
+          if cn.kind == .elem then
+            if cn.elems.length == 0 then pure ()
+            else chosen := true
+          else checkContainer fuel c
+        else throw (.internal "NotImplementedError")
+    if chosen then modN i fun n => { n with reqf := some true }
+
+def checkGroup (fuel : Nat) (i : Nat) : M Unit :=
+  match fuel with
+  | 0 => throw (.internal "fuel")
+  | fuel + 1 => do
+    let n ← getN i
+    match n.children with
+    | [] => throw (.internal "IndexError")
+    | g0 :: _ =>
+      if n.min == 0 && !(truthy (← getN g0).force) then return ()
+      checkSeq fuel g0
+
+def checkSeq (fuel : Nat) (i : Nat) : M Unit :=
+  match fuel with
+  | 0 => throw (.internal "fuel")
+  | fuel + 1 => do
+    let n ← getN i
+    if truthy n.force then
+      for c in n.children do
+        let cn ← getN c
         if cn.kind == .elem then
-          let ch ← choicesInPath c
-          if !ch.isEmpty then pure ()
-          else if cn.elems.length < cn.min then modN c fun x => { x with reqf := some false }
-          else modN c fun x => { x with reqf := some true }
-        else checkContainer c
-      else throw (.internal "NotImplementedError")
+          if cn.elems.length < cn.min then modN c fun x => { x with reqf := some false }
+        else checkContainer fuel c
+    if n.min > 0 then
+      for c in n.children do
+        let cn ← getN c
+        if cn.force == some true then checkContainer fuel c
+        else if cn.min == 0 then pure ()
+        else if cn.min == 1 then
+          -- validate_child
+          if cn.kind == .elem then
+            let ch ← choicesInPath c
+            if !ch.isEmpty then pure ()
+            else if cn.elems.length < cn.min then modN c fun x => { x with reqf := some false }
+            else modN c fun x => { x with reqf := some true }
+          else checkContainer fuel c
+        else throw (.internal "NotImplementedError")
 end
 
 /-! ### flags -/
@@ -277,7 +311,7 @@ def updateRequirementsInPath (leaf : Nat) : M Unit := do
   if (← maxIsReached leaf) then modN leaf fun x => { x with reqf := some true }
   let ln ← getN leaf
   if !ln.elems.isEmpty then
-    let path ← pathToRoot leaf
+    let path ← pathToRoot FUEL leaf
     for node in path do
       let nn ← getN node
       match nn.parent with
@@ -335,7 +369,7 @@ def createEmptyCopy (self : Nat) : M Nat := do
     | .seq _ _ ps => .seq n.min n.max ps
     | .choice _ _ ps => .choice n.min n.max ps
     | .group g _ _ q => .group g n.min n.max q
-  build p
+  build FUEL p
 
 def addDuplicationParent (self : Nat) : M Unit := do
   let n ← getN self
@@ -373,7 +407,7 @@ def duplicate (self : Nat) : M Nat := do
     return cp
 
 def duplicateParentInPath (leaf : Nat) : M (Option Nat) := do
-  let path ← pathToRoot leaf
+  let path ← pathToRoot FUEL leaf
   for node in path.dropLast do
     let nn ← getN node
     match nn.parent with
@@ -388,7 +422,7 @@ def selectValidLeaves (leaves : List Nat) : M (Option (List Nat)) := do
   let mut output : List Nat := []
   let mut cwc : Option Nat := none
   for leaf in leaves do
-    let path ← pathToRoot leaf
+    let path ← pathToRoot FUEL leaf
     for n in path do
       let nn ← getN n
       match nn.parent with
@@ -421,182 +455,194 @@ def addXmlElement (leaf el : Nat) : M Unit := do
   modN leaf fun x => { x with elems := x.elems ++ [el] }
 
 mutual
-partial def checkRequiredElements (self : Nat) (ic : Bool := false) : M Bool := do
-  if (← getN self).reqf.isNone then setRequirementsFulfilled self
-  checkContainer self
-  let tr ← traverse self
-  let a ← get
-  let reqExist := tr.any fun j => a.nodes[j]!.reqf == some false
-  if reqExist && ic then
-    if (← getN self).kind == .choice then return reqExist
-    match ← checkChoicesIntelligently self none with
-    | some cp =>
-      let olds := (← getN self).children
-      let news := (← getN cp).children
-      for (o, n) in olds.zip news do
-        treeReplace self o n
-      return false
-    | none => pure ()
-  return reqExist
-
-partial def checkChoicesIntelligently (self : Nat) (xmlEl : Option Nat) : M (Option Nat) := do
-  let leaves ← iterLeaves self
-  let a ← get
-  let nameOf := fun (l : Nat) => a.nodes[l]!.name
-  -- same-name leaves after the first one, with their index among the same-name leaves
-  let nextOf := fun (nm : Nat) =>
-    (((leaves.filter fun l => nameOf l == nm).zipIdx).drop 1)
-  let current := leaves.filter fun l => !(a.nodes[l]!.elems.isEmpty)
-  let optional := (current.map fun l => (nameOf l, (nextOf (nameOf l)).map (·.2))).filter (fun x => !x.2.isEmpty)
-  if optional.isEmpty then return none
-  -- dict: first occurrence fixes the position
-  let mut options : List (Nat × List Nat) := []
-  for (nm, idxs) in optional do
-    if !(options.any fun o => o.1 == nm) then options := options ++ [(nm, idxs)]
-  let (effName, fwdIdx) := options.getLast!
-  let attached ← attachedElements self
-  let kids := (← get).kids
-  let nm := fun (c : Nat) => ((kids[c]?).getD { name := 0 }).name
-  let sortedEls := attached.filter fun c => nm c != effName
-  let effEls := attached.filter fun c => nm c == effName
-  for element in effEls do
-    for fi in fwdIdx do
-      let cp ← createEmptyCopy self
-      discard <| addElement cp element (some (Int.ofNat fi)) true
-      let r ← tryCatch (do
-          for el in sortedEls do
-            discard <| addElement cp el none false
-          match xmlEl with
-          | some x =>
-            discard <| addElement cp x none false
-            return some (some cp)
-          | none =>
-            if !(← checkRequiredElements cp) then return some (some cp)
-            return none)
-        (fun e => match e with
-          | .anotherChosen => pure none
-          | e => throw e)
-      match r with
-      | some res => return res
-      | none => pure ()
-  return none
-
-/-- `XMLChildContainer.add_element`; returns the selected leaf -/
-partial def addElement (self el : Nat) (forward : Option Int := none) (ic : Bool := true) : M Nat := do
-  resetIter self
-  if (← getN self).reqf.isNone then discard <| checkRequiredElements self
-  let elName := (← getK el).name
-  let leaves ← iterLeaves self
-  let a ← get
-  let same := leaves.filter fun l => a.nodes[l]!.name == elName
-  if same.isEmpty then throw .wrongElement
-  let sel0 ← selectValidLeaves same
-  let mut selected : List Nat := []
-  match sel0 with
-  | none =>
-    if forward.isNone && ic then
-      match ← checkChoicesIntelligently self (some el) with
+def checkRequiredElements (fuel : Nat) (self : Nat) (ic : Bool := false) : M Bool :=
+  match fuel with
+  | 0 => throw (.internal "fuel")
+  | fuel + 1 => do
+    if (← getN self).reqf.isNone then setRequirementsFulfilled self
+    checkContainer fuel self
+    let tr ← traverse self
+    let a ← get
+    let reqExist := tr.any fun j => a.nodes[j]!.reqf == some false
+    if reqExist && ic then
+      if (← getN self).kind == .choice then return reqExist
+      match ← checkChoicesIntelligently fuel self none with
       | some cp =>
         let olds := (← getN self).children
         let news := (← getN cp).children
         for (o, n) in olds.zip news do
           treeReplace self o n
-        let ls ← iterLeaves cp
-        let a ← get
-        match ls.find? fun l => a.nodes[l]!.elems.contains el with
-        | some l => return l
-        | none => throw (.internal "IndexError")
+        return false
       | none => pure ()
-    throw .anotherChosen
-  | some s => selected := s
-  if selected.isEmpty then
-    if forward.isSome then throw .anotherChosen
-    match ← duplicateParentInPath same.getLast! with
-    | some dp =>
-      let ls ← iterLeaves dp
-      let mut acc := []
-      for l in ls do
-        if (← getN l).name == elName then
-          if !(← maxIsReached l) then acc := acc ++ [l]
-      selected := acc
-      let sn ← getN self
-      if sn.pxml && sn.parent.isSome then
-        modify fun a => { a with root := sn.parent.get! }
-    | none => throw .anotherChosen
-  let mut target : Nat := 0
-  match forward with
-  | some f =>
-    let n := same.length
-    let idx : Int := if f < 0 then f + n else f
-    if idx < 0 || idx ≥ n then throw .anotherChosen
-    let s := same[idx.toNat]!
-    if !selected.contains s then throw .anotherChosen
-    if (← maxIsReached s) then throw .maxOccurs
-    target := s
-  | none =>
-    let mut notReached := []
-    for l in selected do
-      if !(← maxIsReached l) then notReached := notReached ++ [l]
-    if notReached.isEmpty then
-      match ← duplicateParentInPath selected.getLast! with
+    return reqExist
+
+def checkChoicesIntelligently (fuel : Nat) (self : Nat) (xmlEl : Option Nat) : M (Option Nat) :=
+  match fuel with
+  | 0 => throw (.internal "fuel")
+  | fuel + 1 => do
+    let leaves ← iterLeaves self
+    let a ← get
+    let nameOf := fun (l : Nat) => a.nodes[l]!.name
+    -- same-name leaves after the first one, with their index among the same-name leaves
+    let nextOf := fun (nm : Nat) =>
+      (((leaves.filter fun l => nameOf l == nm).zipIdx).drop 1)
+    let current := leaves.filter fun l => !(a.nodes[l]!.elems.isEmpty)
+    let optional := (current.map fun l => (nameOf l, (nextOf (nameOf l)).map (·.2))).filter (fun x => !x.2.isEmpty)
+    if optional.isEmpty then return none
+    -- dict: first occurrence fixes the position
+    let mut options : List (Nat × List Nat) := []
+    for (nm, idxs) in optional do
+      if !(options.any fun o => o.1 == nm) then options := options ++ [(nm, idxs)]
+    let (effName, fwdIdx) := options.getLast!
+    let attached ← attachedElements self
+    let kids := (← get).kids
+    let nm := fun (c : Nat) => (kget kids c).name
+    let sortedEls := attached.filter fun c => nm c != effName
+    let effEls := attached.filter fun c => nm c == effName
+    for element in effEls do
+      for fi in fwdIdx do
+        let cp ← createEmptyCopy self
+        discard <| addElement fuel cp element (some (Int.ofNat fi)) true
+        let r ← tryCatch (do
+            for el in sortedEls do
+              discard <| addElement fuel cp el none false
+            match xmlEl with
+            | some x =>
+              discard <| addElement fuel cp x none false
+              return some (some cp)
+            | none =>
+              if !(← checkRequiredElements fuel cp) then return some (some cp)
+              return none)
+          (fun e => match e with
+            | .anotherChosen => pure none
+            | e => throw e)
+        match r with
+        | some res => return res
+        | none => pure ()
+    return none
+
+/-- `XMLChildContainer.add_element`; returns the selected leaf -/
+def addElement (fuel : Nat) (self el : Nat) (forward : Option Int := none) (ic : Bool := true) : M Nat :=
+  match fuel with
+  | 0 => throw (.internal "fuel")
+  | fuel + 1 => do
+    resetIter fuel self
+    if (← getN self).reqf.isNone then discard <| checkRequiredElements fuel self
+    let elName := (← getK el).name
+    let leaves ← iterLeaves self
+    let a ← get
+    let same := leaves.filter fun l => a.nodes[l]!.name == elName
+    if same.isEmpty then throw .wrongElement
+    let sel0 ← selectValidLeaves same
+    let mut selected : List Nat := []
+    match sel0 with
+    | none =>
+      if forward.isNone && ic then
+        match ← checkChoicesIntelligently fuel self (some el) with
+        | some cp =>
+          let olds := (← getN self).children
+          let news := (← getN cp).children
+          for (o, n) in olds.zip news do
+            treeReplace self o n
+          let ls ← iterLeaves cp
+          let a ← get
+          match ls.find? fun l => a.nodes[l]!.elems.contains el with
+          | some l => return l
+          | none => throw (.internal "IndexError")
+        | none => pure ()
+      throw .anotherChosen
+    | some s => selected := s
+    if selected.isEmpty then
+      if forward.isSome then throw .anotherChosen
+      match ← duplicateParentInPath same.getLast! with
       | some dp =>
         let ls ← iterLeaves dp
         let mut acc := []
         for l in ls do
           if (← getN l).name == elName then
             if !(← maxIsReached l) then acc := acc ++ [l]
-        notReached := acc
+        selected := acc
         let sn ← getN self
         if sn.pxml && sn.parent.isSome then
           modify fun a => { a with root := sn.parent.get! }
-      | none => throw .maxOccurs
-    match notReached with
-    | l :: _ => target := l
-    | [] => throw (.internal "IndexError")
-  addXmlElement target el
-  updateRequirementsInPath target
-  return target
+      | none => throw .anotherChosen
+    let mut target : Nat := 0
+    match forward with
+    | some f =>
+      let n := same.length
+      let idx : Int := if f < 0 then f + n else f
+      if idx < 0 || idx ≥ n then throw .anotherChosen
+      let s := same[idx.toNat]!
+      if !selected.contains s then throw .anotherChosen
+      if (← maxIsReached s) then throw .maxOccurs
+      target := s
+    | none =>
+      let mut notReached := []
+      for l in selected do
+        if !(← maxIsReached l) then notReached := notReached ++ [l]
+      if notReached.isEmpty then
+        match ← duplicateParentInPath selected.getLast! with
+        | some dp =>
+          let ls ← iterLeaves dp
+          let mut acc := []
+          for l in ls do
+            if (← getN l).name == elName then
+              if !(← maxIsReached l) then acc := acc ++ [l]
+          notReached := acc
+          let sn ← getN self
+          if sn.pxml && sn.parent.isSome then
+            modify fun a => { a with root := sn.parent.get! }
+        | none => throw .maxOccurs
+      match notReached with
+      | l :: _ => target := l
+      | [] => throw (.internal "IndexError")
+    addXmlElement target el
+    updateRequirementsInPath target
+    return target
 end
 
 /-- `get_required_element_names`: flattened names of the leaves `func` reports, in leaf order of the
     *current* tree (group → first child only) -/
-partial def requiredLeaves (i : Nat) : M (List Nat) := do
-  let n ← getN i
-  match n.kind with
-  | .elem =>
-    if n.reqf == some false then return [n.name]
-    else if n.min != 0 then
-      let ch ← choicesInPath i
-      let a ← get
-      if ch.any fun c => a.nodes[c]!.reqf == some false then
-        match n.parent with
-        | some p =>
-          let pn ← getN p
-          if isSeq pn.kind && pn.min == 0 && !(truthy pn.force) then return []
-          else return [n.name]
-        | none => throw (.internal "AttributeError")
+def requiredLeaves (fuel : Nat) (i : Nat) : M (List Nat) :=
+  match fuel with
+  | 0 => throw (.internal "fuel")
+  | fuel + 1 => do
+    let n ← getN i
+    match n.kind with
+    | .elem =>
+      if n.reqf == some false then return [n.name]
+      else if n.min != 0 then
+        let ch ← choicesInPath i
+        let a ← get
+        if ch.any fun c => a.nodes[c]!.reqf == some false then
+          match n.parent with
+          | some p =>
+            let pn ← getN p
+            if isSeq pn.kind && pn.min == 0 && !(truthy pn.force) then return []
+            else return [n.name]
+          | none => throw (.internal "AttributeError")
+        else return []
       else return []
-    else return []
-  | .group =>
-    match n.children with
-    | c :: _ => requiredLeaves c
-    | [] => throw (.internal "IndexError")
-  | _ =>
-    let mut out := []
-    for c in n.children do
-      out := out ++ (← requiredLeaves c)
-    return out
+    | .group =>
+      match n.children with
+      | c :: _ => requiredLeaves fuel c
+      | [] => throw (.internal "IndexError")
+    | _ =>
+      let mut out := []
+      for c in n.children do
+        out := out ++ (← requiredLeaves fuel c)
+      return out
 
 def getRequiredElementNames (ic : Bool) : M (List Nat) := do
   let root := (← get).root
-  discard <| checkRequiredElements root ic
-  requiredLeaves root
+  discard <| checkRequiredElements FUEL root ic
+  requiredLeaves FUEL root
 
 /-! ### XMLElement child handling (checked mode) -/
 def elAddChild (cid name : Nat) (forward : Option Int) : M Unit := do
   modK cid fun c => { c with name := name }
   let root := (← get).root
-  discard <| addElement root cid forward true
+  discard <| addElement FUEL root cid forward true
   modify fun a => { a with unordered := a.unordered ++ [cid] }
   modK cid fun c => { c with par := true }
 
@@ -623,7 +669,7 @@ def elRemove (cid : Nat) : M Unit := do
       modN leaf fun x => { x with elems := x.elems.erase cid }
       modK cid fun c => { c with pxe := none }
       -- remove_duplictation()
-      let path ← pathToRoot pc
+      let path ← pathToRoot FUEL pc
       for node in path do
         let nn ← getN node
         match nn.parent with
@@ -638,7 +684,7 @@ def elRemove (cid : Nat) : M Unit := do
               rem := true
             if rem then treeRemove up node
       -- flag reset of emptied particles
-      let path ← pathToRoot pc
+      let path ← pathToRoot FUEL pc
       for node in path do
         let ls ← iterLeaves node
         let a ← get
